@@ -38,23 +38,31 @@ VARIABLES decl, uses, phase, cfg, ip, vars, ref, ctr, obs, status, draws, res
 vs == <<decl, uses, phase, cfg, ip, vars, ref, ctr, obs, status, draws, res>>
 
 AKinds == {"Leaf", "Mid"}
-BKinds == {"none", "Leaf", "Mid", "alias", "holder"}
+BKinds == {"none", "Leaf", "Mid", "alias", "holder", "jholder", "jholder2"}
+\* jholder: self.b = nn.jit(Holder)(self.a);  jholder2: additionally self.c2 = Leaf(); self.b2 = nn.jit(Holder)(self.c2)
 \* ws: the wrapper declares its child in setup() ("setup": bound lazily, at the wrapper's first call) or receives it as a dataclass
 \* attribute ("attr": bound together with the wrapper, so nn.share_scope itself meets the child)
 Decls == {[a |-> ka, b |-> kb, w |-> "none", shared |-> FALSE, ws |-> "setup"] : ka \in AKinds, kb \in BKinds}
          \cup {[a |-> ka, b |-> kb, w |-> w, shared |-> sh, ws |-> ws] :
                  ka \in AKinds, kb \in {"none", "alias", "holder", "Mid"}, w \in {"a", "b", "c"}, sh \in BOOLEAN, ws \in {"setup", "attr"}}
+         \* jattr: the wrapper class itself is nn.jit-ed and receives its child as an attribute (never shared)
+         \cup {[a |-> ka, b |-> kb, w |-> "c", shared |-> FALSE, ws |-> "jattr"] : ka \in AKinds, kb \in {"none", "jholder", "holder", "Leaf"}}
 
-Attrs(d) == {"a"} \cup (IF d.b # "none" THEN {"b"} ELSE {}) \cup (IF d.w # "none" THEN {"wrapped"} ELSE {})
+\* focused declaration set (cfg: Decls <- DeclsJit): two different Leafs, each held as an attribute by its own nn.jit-ed wrapper
+DeclsJit == {[a |-> ka, b |-> "jholder", w |-> "c", shared |-> FALSE, ws |-> "jattr"] : ka \in AKinds}
+            \cup {[a |-> ka, b |-> "jholder2", w |-> "none", shared |-> FALSE, ws |-> "setup"] : ka \in AKinds}
+
+Attrs(d) == {"a"} \cup (IF d.b # "none" THEN {"b"} ELSE {}) \cup (IF d.w # "none" THEN {"wrapped"} ELSE {}) \cup (IF d.b = "jholder2" THEN {"b2"} ELSE {})
 
 RECURSIVE LeafPath(_, _)
 LeafPath(d, attr) ==
   CASE attr = "a" -> IF d.a = "Leaf" THEN <<"a">> ELSE <<"a", "leaf">>
     [] attr = "b" -> IF d.b = "Leaf" THEN <<"b">> ELSE IF d.b = "Mid" THEN <<"b", "leaf">> ELSE LeafPath(d, "a")
     [] attr = "wrapped" -> IF d.shared THEN <<d.w>> ELSE <<"wrapped", d.w>>
+    [] attr = "b2" -> <<"c2">>
 
 \* names that setup() reserves in Top's scope for child modules
-OwnChildren(d) == {"a"} \cup (IF d.b \in {"Leaf", "Mid", "holder"} THEN {"b"} ELSE {})
+OwnChildren(d) == {"a"} \cup (IF d.b \in {"Leaf", "Mid", "holder", "jholder", "jholder2"} THEN {"b"} ELSE {}) \cup (IF d.b = "jholder2" THEN {"b2", "c2"} ELSE {})
 Clash(d) == d.w # "none" /\ d.shared /\ d.w \in OwnChildren(d)
 
 \* scopes that are pushed lazily, at the first call of their parent module (the others are pushed by Top.setup)
@@ -86,11 +94,15 @@ Put(v, k, x) == [q \in DOMAIN v \cup {k} |-> IF q = k THEN x ELSE v[q]]
 (* keys `fork` (<<>> outside nn.jit) and mutability `mut`; on state S =    *)
 (* [vars, ctr, draws, out, err].                                           *)
 (***************************************************************************)
+\* a module reached through a class-level nn.jit wrapper that holds it as an *attribute* (jholder / jattr): its scope is lifted
+\* next to the wrapper's own scope; its keys must still depend on its own path
+JitAttr(d, attr) == (attr = "b" /\ d.b \in {"jholder", "jholder2"}) \/ (attr = "b2") \/ (attr = "wrapped" /\ d.w # "none" /\ d.ws = "jattr")
 LeafCall(S, p, streams, fork, mut) ==
   LET seed == IF "drop" \in streams THEN "drop" ELSE IF "params" \in streams THEN "params" ELSE "none"
       \* parameter
       hasP == VKey("params", p) \in DOMAIN S.vars
-      pid == IF fork = <<>> THEN KeyId("params", p, Cnt(S.ctr, p, "params") + 1) ELSE <<"fork", fork["params"], p, Cnt(S.ctr, p, "params") + 1>>
+      pid == IF fork = <<>> THEN KeyId("params", p, Cnt(S.ctr, p, "params") + 1)
+             ELSE <<"fork", fork["params"], p, Cnt(S.ctr, p, "params") + 1>>
       v1 == IF hasP THEN S.vars ELSE Put(S.vars, VKey("params", p), [key |-> pid])
       c1 == IF hasP THEN S.ctr ELSE Bump(S.ctr, p, "params")
       d1 == IF hasP THEN S.draws ELSE Append(S.draws, pid)
@@ -101,7 +113,8 @@ LeafCall(S, p, streams, fork, mut) ==
       \* key
       kerr == seed # "none" /\ seed \notin DOMAIN c1[p]
       kid == IF seed = "none" \/ kerr THEN <<"none">>
-             ELSE IF fork = <<>> THEN KeyId(seed, p, Cnt(c1, p, seed) + 1) ELSE <<"fork", fork[seed], p, Cnt(c1, p, seed) + 1>>
+             ELSE IF fork = <<>> THEN KeyId(seed, p, Cnt(c1, p, seed) + 1)
+             ELSE <<"fork", fork[seed], p, Cnt(c1, p, seed) + 1>>
       c2 == IF seed = "none" \/ kerr THEN c1 ELSE Bump(c1, p, seed)
       d2 == IF seed = "none" \/ kerr THEN d1 ELSE Append(d1, kid)
   IN [vars |-> v2, ctr |-> c2, draws |-> d2,
@@ -123,7 +136,14 @@ ZeroOut == [cnt |-> 0, par |-> <<"zero">>, key |-> <<"none">>]
 \* implementation-shaped: plain use on the outer tree, lifted use on a copy + publish of mutable collections
 UseImpl(S, attr, via) ==
   LET S0 == [S EXCEPT !.out = ZeroOut] IN
-  IF via = "plain" THEN ModuleCall(S0, attr, cfg.streams, <<>>, cfg.mut)
+  IF via = "plain" /\ JitAttr(decl, attr)
+  THEN \* the jitted wrapper forks its own streams (one draw per stream at its own scope); the attribute module draws in its own scope
+       LET wp == IF attr = "b" THEN <<"b">> ELSE IF attr = "b2" THEN <<"b2">> ELSE <<"wrapped">>
+           S1 == [S0 EXCEPT !.ctr = BumpAll(PushCtr(S0.ctr, wp, cfg.streams), wp, cfg.streams)]
+           \* identity of a draw there: the module's own path and count below a per-stream key that is not any call-site fork
+           sec == [s \in cfg.streams |-> <<s, <<"sec">>, 0>>]
+       IN IF cfg.streams = {} THEN ModuleCall(S1, attr, cfg.streams, <<>>, cfg.mut) ELSE ModuleCall(S1, attr, cfg.streams, sec, cfg.mut)
+  ELSE IF via = "plain" THEN ModuleCall(S0, attr, cfg.streams, <<>>, cfg.mut)
   ELSE LET fork == IF via \in {"jit", "jit_f"} THEN [s \in cfg.streams |-> KeyId(s, <<>>, Cnt(S.ctr, <<>>, s) + 1)] ELSE <<>>
            cIn == IF via \in {"jit", "jit_f"} THEN BumpAll(S.ctr, <<>>, cfg.streams) ELSE S.ctr
            inner == [S0 EXCEPT !.ctr = cIn]                                   \* copy of the variables, shared counters
@@ -149,9 +169,10 @@ UseRef(V, attr, via) ==
 SetupCtr(d, streams) ==
   LET c0 == (<<>> :> [s \in streams |-> 0])
       c1 == PushCtr(c0, <<"a">>, streams)
-      c2 == IF d.b \in {"Leaf", "Mid", "holder"} THEN PushCtr(c1, <<"b">>, streams) ELSE c1
+      c2a == IF d.b \in {"Leaf", "Mid", "holder", "jholder", "jholder2"} THEN PushCtr(c1, <<"b">>, streams) ELSE c1
+      c2 == IF d.b = "jholder2" THEN PushCtr(PushCtr(c2a, <<"c2">>, streams), <<"b2">>, streams) ELSE c2a
       c3 == IF d.w # "none" /\ ~d.shared THEN PushCtr(c2, <<"wrapped">>, streams) ELSE c2
-      c4 == IF d.w # "none" /\ d.ws = "attr" /\ ~Clash(d) THEN PushCtr(c3, LeafPath(d, "wrapped"), streams) ELSE c3
+      c4 == IF d.w # "none" /\ d.ws \in {"attr", "jattr"} /\ ~Clash(d) THEN PushCtr(c3, LeafPath(d, "wrapped"), streams) ELSE c3
   IN c4
 
 Init == /\ decl \in Decls /\ uses = <<>> /\ phase = "init" /\ cfg \in InitCfgs /\ ip = 1
@@ -178,6 +199,7 @@ Step(u) ==
 Grow(u) == /\ phase = "init" /\ status = "run" /\ ip = Len(uses) + 1 /\ Len(uses) < MaxUses
            /\ u.attr \in Attrs(decl) /\ u.via \in Vias
            /\ (Clash(decl) /\ uses = <<>> => u.attr = "wrapped")
+           /\ (JitAttr(decl, u.attr) => u.via = "plain")                \* (no lifted method around a class-level lifted wrapper)
            /\ uses' = Append(uses, u)
            /\ Step(u)
            /\ ip' = ip + 1
@@ -213,7 +235,7 @@ EndApply ==
   /\ phase' = "done"
   /\ UNCHANGED <<decl, uses, cfg, ip, vars, ref, ctr, obs, draws, status>>
 
-Next == \/ \E a \in {"a", "b", "wrapped"}, v \in Vias : Grow([attr |-> a, via |-> v])
+Next == \/ \E a \in {"a", "b", "wrapped", "b2"}, v \in Vias : Grow([attr |-> a, via |-> v])
         \/ EndInit \/ ApplyStep \/ EndApply
 
 Spec == Init /\ [][Next]_vs
